@@ -87,7 +87,7 @@ def generate(rng, tier):
                               ["recurrence", "mode:" + md, "max:%d" % mx], fam="R"))
         elif r < 0.86:
             # --ref / ISODATETIMEREF and the keyword "ref"; pairs with --offset1/--offset2; pairs with a duration print format
-            k = rng.choice(["ref", "ref", "off12", "off12", "dfmt", "pfmt", "pfmt", "pfmt"])
+            k = rng.choice(["ref", "ref", "off12", "off12", "dfmt", "pfmt", "pfmt", "pfmt", "alias", "alias"])
             if k == "ref":
                 T, T2 = rand_text(rng, "G", big=False), rand_text(rng, "G", big=False)
                 off = rng.choice(OFFSETS)
@@ -102,6 +102,34 @@ def generate(rng, tier):
                 o1, o2 = rng.choice(OFFSETS), rng.choice(OFFSETS)
                 cases.append(Case(["cli_diff_off %s %s %s %s %s" % (md, enc(t1), enc(t2), enc(o1), enc(o2))],
                                   ["diff-offsets", "mode:" + md], fam="O"))
+            elif k == "alias":
+                # the documented short / alternative option spellings, intermixed with the positional arguments, select
+                # what the long spellings select
+                t1, t2 = rand_text(rng, md, big=False), rand_text(rng, md, big=False)
+                o1, o2 = rng.choice(OFFSETS), rng.choice(OFFSETS)
+                o1b = rng.choice(OFFSETS)
+                fmt = rng.choice(["CCYY-MM-DDThh:mm:ssZ", "%Y/%m/%d %H:%M", "CCYYDDDThhmmZ"])
+                shape = rng.choice(["s", "s", "12", "f", "u", "R"])
+                cal = "--calendar=" + {"G": "gregorian", "360": "360day", "365": "365day", "366": "366day"}[md]
+                if shape == "s":
+                    sp = rng.choice(["-s", "-1", "--offset", "--offset1"])
+                    a = [cal, sp, o1, t1, rng.choice(["-s", "-1", "--offset"]), o1b]
+                    b = [cal, t1, "--offset1=" + o1, "--offset1=" + o1b]
+                elif shape == "12":
+                    a = [cal, "-2", o2, t1, "-1", o1, t2]
+                    b = [cal, t1, t2, "--offset1=" + o1, "--offset2=" + o2]
+                elif shape == "f":
+                    sp = rng.choice(["-f", "--format"])
+                    a = [cal, sp, fmt, t1, "-s", o1]
+                    b = [cal, t1, "--offset1=" + o1, "--print-format=" + fmt]
+                elif shape == "u":
+                    a = [cal, t1, "-u", "-1", o1]
+                    b = [cal, "--utc", t1, "--offset1=" + o1]
+                else:
+                    a = [cal, "-R", t1, "ref", "-s", o1]
+                    b = [cal, "--ref=" + t1, "ref", "--offset1=" + o1]
+                lines = ["cli -- " + " ".join(enc(x) for x in a), "cli -- " + " ".join(enc(x) for x in b)]
+                cases.append(Case(lines, ["option-spelling", "shape:" + shape, "mode:" + md], fam="A"))
             elif k == "pfmt":
                 # --parse-format (strptime notation), with and without --utc: the zone read by %z must be honoured and
                 # converted, and the result is printed in the same notation
@@ -166,7 +194,7 @@ def model_lines(c):
 
 def corr(c):
     """model vs implementation on the command line's own output"""
-    if not c.model or c.meta["fam"] in ("E", "Q", "O", "F", "P"):
+    if not c.model or c.meta["fam"] in ("E", "Q", "O", "F", "P", "A"):
         return []
     m = c.model[0]
     cli = c.impl[0].split(" ; ", 1)[0].strip()
@@ -186,11 +214,16 @@ def judge(c):
     out = c.impl[0]
     fam = c.meta["fam"]
     res = corr(c)
-    if out.startswith(("EXC", "HANG")) or " ; " not in out and fam not in ("M", "E", "Q"):
+    if out.startswith(("EXC", "HANG")) or " ; " not in out and fam not in ("M", "E", "Q", "A"):
         return res + [("violation", "%s -> %s (a traceback or hang would reach the user)" % (c.lines[0], out))]
     if fam == "Q":
         if out != c.impl[1]:
             res.append(("violation", "%s prints %s but %s prints %s (--ref / ISODATETIMEREF must select the reference the keyword ref stands for; the option wins)" % (
+                c.lines[0], out, c.lines[1], c.impl[1])))
+        return res
+    if fam == "A":
+        if out != c.impl[1]:
+            res.append(("violation", "%s prints %s but %s prints %s (the short and alternative option spellings must select what the long ones select)" % (
                 c.lines[0], out, c.lines[1], c.impl[1])))
         return res
     if fam == "O":
